@@ -149,10 +149,14 @@ def plan(expr, stage):
     return e.lower_completely()
 
 
-def symexec(lowered, env, paths=True):
-    """-> [(path condition, gathered value | Exception)], interpreter (for the executed-callables list)"""
+class Parts(list):
+    """per-partition result (compared partition by partition, order-sensitively)"""
+
+
+def symexec(lowered, env, paths=True, gather=True):
+    """-> [(path condition, gathered value | Parts | Exception)], interpreter (for the executed-callables list)"""
     from symdf import core
-    from symdf.equiv import gather
+    from symdf.equiv import gather as gather_
     from symdf.interp import run_graph
 
     holder = {}
@@ -161,7 +165,7 @@ def symexec(lowered, env, paths=True):
         parts, it = run_graph(lowered, env)
         holder["it"] = it
         holder["parts"] = parts
-        return gather(parts)
+        return gather_(parts) if gather else Parts(parts)
 
     def mk():
         s = z3.Solver()
@@ -330,10 +334,17 @@ def _compare_paths(prog, env, name, sig, stage, ref_paths, st_paths, t0, ref_sta
                 if r == "sat":
                     tables = conc.tables_from_model(env, model)
                     differs, msg = replay_stage(prog, tables, stage, ref_stage)
+                    if not differs and type(vb).__name__ == "ModelledMisalignment":
+                        return Result(name, SKIPPED, "", "alignment of duplicate labels is only modelled as a candidate failure; pandas coped on the replayed table", solver_s=total_s, queries=nq, extra={"unsupported": "duplicate-label alignment"})
                     return _verdict(prog, name, sig, stage, differs, f"stage raises {vb!r} on a path where the reference computes; replay: {msg}", tables, total_s, nq)
                 return Result(name, INCONCLUSIVE, "", "solver unknown on exception path", solver_s=total_s, queries=nq)
             try:
-                eq = equiv.equal(va, vb, prog.ordered, prog.check_index)
+                if isinstance(va, Parts) or isinstance(vb, Parts):
+                    if len(va) != len(vb):
+                        raise equiv.Mismatch(f"number of partitions differs: {len(va)} vs {len(vb)}")
+                    eq = z3.And(*[equiv.equal(x, y, True, prog.check_index) for x, y in zip(va, vb)]) if len(va) else z3.BoolVal(True)
+                else:
+                    eq = equiv.equal(va, vb, prog.ordered, prog.check_index)
             except equiv.Mismatch as e:
                 r, model, dt = solve(env.constraints, z3.And(pca, pcb))
                 total_s += dt
@@ -353,7 +364,7 @@ def _compare_paths(prog, env, name, sig, stage, ref_paths, st_paths, t0, ref_sta
             if r == "unknown":
                 return Result(name, INCONCLUSIVE, "", "z3 unknown/timeout", solver_s=total_s, queries=nq)
             # provenance-keyed comparison can be stricter than multiset equality: confirm with the generic encoding
-            if not prog.ordered and hasattr(va, "valid"):
+            if not prog.ordered and hasattr(va, "valid") and not isinstance(va, Parts):
                 try:
                     eq2 = equiv.equal_multiset(va, vb, prog.check_index)
                     r2, model2, dt2 = solve(env.constraints, z3.And(pca, pcb, z3.Not(eq2)))
@@ -449,3 +460,144 @@ def replay(payload):
     prog = Program(payload["text"], [])
     print("replay of P counterexamples: re-run the check; the counterexample tables are in the replay file")
     return 0
+
+
+# ---------------------------------------------------------------------------------------------- generic two-plan check
+
+def concrete_parts(lowered):
+    import dask
+
+    e = lowered.lower_completely()
+    return list(dask.get(e.__dask_graph__(), e.__dask_keys__()))
+
+
+def check_two_plans(prog: Program, label, mk_a, mk_b, per_partition=False, extra_static=None, validate=0) -> list[Result]:
+    """obligation: plan mk_b(expr) computes the same as plan mk_a(expr) for all data (optionally partition by
+    partition, order-sensitively).  mk_*: logical Expr -> lowered Expr.  extra_static(a_plan, b_plan) -> str | None
+    reports a data-independent difference (npartitions / divisions / meta)."""
+    init()
+    from symdf.core import Unsupported, StructuralError
+    from symdf import equiv, conc
+    from symdf.interp import GraphError
+
+    env, frames = make_env(prog)
+    name = f"{prog.name}|{label}"
+    sig = _sig(prog, label)
+
+    def replay(tables):
+        fr, present = _frames_of(tables)
+        try:
+            q = prog.build(make_collections(prog, fr, present))
+            a = concrete_parts(mk_a(q.expr)) if per_partition else concrete(mk_a(q.expr))
+        except Exception as e:
+            return None, f"reference plan fails concretely: {type(e).__name__}: {e}"
+        try:
+            b = concrete_parts(mk_b(q.expr)) if per_partition else concrete(mk_b(q.expr))
+        except Exception as e:
+            return True, f"{label} plan raises {type(e).__name__}: {str(e)[:200]} while the reference computes"
+        if per_partition:
+            if len(a) != len(b):
+                return True, f"{len(a)} vs {len(b)} partitions"
+            for i, (x, y) in enumerate(zip(a, b)):
+                same, msg = conc.same_pandas(x, y, True, prog.check_index)
+                if not same:
+                    return True, f"partition {i}: {msg}"
+            return False, "equal"
+        same, msg = conc.same_pandas(a, b, prog.ordered, prog.check_index)
+        return (not same), msg
+
+    try:
+        q = prog.build(make_collections(prog, frames))
+        a_plan = mk_a(q.expr)
+    except Exception as e:
+        return [Result(name, SKIPPED, "", f"reference plan does not build: {type(e).__name__}: {str(e)[:200]}")]
+    try:
+        b_plan = mk_b(q.expr)
+    except Exception as e:
+        differs, msg = replay(conc.tables_from_model(env, None, 1))
+        return [Result(name, VIOLATION if differs else HARNESS_ERROR, sig, f"{label}: planning fails: {type(e).__name__}: {str(e)[:300]}; replay: {msg}",
+                       {"engine": "P", "family": prog.family, "program": prog.name, "stage": label})]
+    if extra_static is not None:
+        msg = extra_static(a_plan, b_plan)
+        if msg:
+            return [Result(name, VIOLATION, sig, f"{label}: {msg}", {"engine": "P", "family": prog.family, "program": prog.name, "stage": label, "kind": "static"})]
+    if a_plan._name == b_plan._name:
+        return [Result(name, HELD, "", "plans identical", extra={"trivial": True})]
+    try:
+        a_paths, a_it = symexec(a_plan, env, gather=not per_partition)
+    except Unsupported as e:
+        return [Result(name, SKIPPED, "", f"unsupported in reference plan: {e}", extra={"unsupported": str(e)})]
+    except (StructuralError, GraphError) as e:
+        return [Result(name, SKIPPED, "", f"reference plan fails structurally: {e}")]
+    try:
+        b_paths, b_it = symexec(b_plan, env, gather=not per_partition)
+    except Unsupported as e:
+        differs, msg = replay(conc.tables_from_model(env, None, 1))
+        if differs and "raises" in msg:
+            return [Result(name, VIOLATION, sig, f"{label} plan fails for every input ({e}); replay: {msg}", {"engine": "P", "program": prog.name, "stage": label})]
+        return [Result(name, SKIPPED, "", f"unsupported in {label} plan: {e}", extra={"unsupported": str(e)})]
+    except (StructuralError, GraphError) as e:
+        differs, msg = replay(conc.tables_from_model(env, None, 1))
+        return [Result(name, VIOLATION if differs else HARNESS_ERROR, sig, f"{label} plan fails for every input: {e}; replay: {msg}",
+                       {"engine": "P", "family": prog.family, "program": prog.name, "stage": label})]
+    global replay_stage
+    saved = replay_stage
+    try:
+        replay_stage = lambda prog_, tables, stage, ref_stage="unopt": replay(tables)  # noqa: E731
+        r = _compare_paths(prog, env, name, sig, label, a_paths, b_paths, time.time())
+    finally:
+        replay_stage = saved
+    r.extra["callables"] = sorted(set(a_it.calls) | set(b_it.calls))[:60] if a_it and b_it else []
+    return [r]
+
+
+def check_fusion(prog: Program) -> list[Result]:
+    """C14: fused plan vs unfused optimised plan, partition by partition; npartitions / divisions / meta labels equal"""
+    from dask_expr._expr import optimize
+
+    def static(a, b):
+        if a.npartitions != b.npartitions:
+            return f"npartitions {a.npartitions} vs {b.npartitions}"
+        if tuple(a.divisions) != tuple(b.divisions):
+            return f"divisions {a.divisions} vs {b.divisions}"
+        ma, mb = a._meta, b._meta
+        if type(ma) is not type(mb):
+            return f"meta kind {type(ma).__name__} vs {type(mb).__name__}"
+        if hasattr(ma, "columns") and list(ma.columns) != list(mb.columns):
+            return f"meta columns {list(ma.columns)} vs {list(mb.columns)}"
+        if hasattr(ma, "name") and ma.name != mb.name:
+            return f"meta name {ma.name!r} vs {mb.name!r}"
+        if hasattr(ma, "dtypes") and hasattr(ma, "columns") and list(map(str, ma.dtypes)) != list(map(str, mb.dtypes)):
+            return f"meta dtypes {list(ma.dtypes)} vs {list(mb.dtypes)}"
+        return None
+
+    return check_two_plans(prog, "fused-vs-unfused", lambda e: optimize(e, fuse=False), lambda e: optimize(e, fuse=True), per_partition=True, extra_static=static)
+
+
+def check_idempotent(prog: Program) -> list[Result]:
+    """C19-P: optimize(optimize(q)) computes what optimize(q) computes; repeated optimisation gives the same plan"""
+    from dask_expr._expr import optimize
+
+    def twice(e):
+        return optimize(optimize(e, fuse=True), fuse=True)
+
+    def static(a, b):
+        return None
+
+    out = check_two_plans(prog, "optimize-twice", lambda e: optimize(e, fuse=True), twice)
+    out += check_two_plans(prog, "optimize-twice-nofuse", lambda e: optimize(e, fuse=False), lambda e: optimize(optimize(e, fuse=False), fuse=True))
+    # determinism (concrete by-product): the same query optimised again yields the same plan name
+    init()
+    env, frames = make_env(prog)
+    try:
+        q1 = prog.build(make_collections(prog, frames))
+        q2 = prog.build(make_collections(prog, frames))
+        n1, n2, n3 = optimize(q1.expr)._name, optimize(q2.expr)._name, optimize(q1.expr)._name
+        if not (n1 == n2 == n3):
+            out.append(Result(f"{prog.name}|deterministic", VIOLATION, _sig(prog, "deterministic"), f"optimised plan names differ between repetitions: {n1} {n2} {n3}",
+                              {"engine": "P", "program": prog.name, "stage": "deterministic"}))
+        else:
+            out.append(Result(f"{prog.name}|deterministic", HELD, "", "same plan name on repeated optimisation (concrete by-product)", extra={"trivial": True}))
+    except Exception as e:
+        pass
+    return out
